@@ -19,8 +19,20 @@ func nominal(tag string, c *Class) bool {
 	if err != nil {
 		return false
 	}
+	acc := strings.HasSuffix(tag, "/accessor-named")
 	for i := range c.Methods {
 		m := &c.Methods[i]
+		if acc != m.AccessorNamed {
+			continue
+		}
+		if acc && dv[0] == "conditionLines" {
+			for _, cd := range m.Conds {
+				if cd.EndLine-cd.StartLine+1 == tCond+d {
+					return true
+				}
+			}
+			continue
+		}
 		switch dv[0] {
 		case "methodLen":
 			if m.HasBody && m.CloseLine-m.StartLine == tLen+d {
@@ -81,6 +93,9 @@ func TestRandomAndRich(t *testing.T) {
 			t.Fatalf("random %d: %v\n%s", i, err, p.Classes[0].Text)
 		}
 		for _, c := range p.Classes {
+			if acc, non := countAcc(c); acc > 0 && (non < 1 || non >= tLarge-2) {
+				t.Fatalf("random %d: accessor-named method in a class with %d ordinary methods", i, non)
+			}
 			for _, m := range c.Methods {
 				if m.ElseIfs > 0 && m.TopIfs+m.ElseIfs >= tRepeat {
 					t.Fatalf("random %d: else-if chain in a method near the threshold", i)
@@ -93,5 +108,31 @@ func TestRandomAndRich(t *testing.T) {
 		if err := SelfCheck(p); err != nil {
 			t.Fatalf("rich %d: %v", i, err)
 		}
+		wide, files := 0, map[string]bool{}
+		for _, c := range p.Classes {
+			if acc, non := countAcc(c); acc > 0 && (non < 1 || non >= tLarge-2) {
+				t.Fatalf("rich %d: accessor-named method in a class with %d ordinary methods", i, non)
+			}
+			for _, m := range c.Methods {
+				if m.Params > tParams {
+					wide++
+					files[c.RelPath] = true
+				}
+			}
+		}
+		if wide < 13 || len(files) < 3 {
+			t.Fatalf("rich %d: %d methods with > %d parameters in %d files", i, wide, tParams, len(files))
+		}
 	}
+}
+
+func countAcc(c *Class) (acc, ordinary int) {
+	for _, m := range c.Methods {
+		if m.AccessorNamed {
+			acc++
+		} else if !m.GetterSetter() {
+			ordinary++
+		}
+	}
+	return
 }
